@@ -161,3 +161,47 @@ func VerifH_C16_shared_cache() {
 	}
 	symReach("end")
 }
+
+// H14-kv: a Commit that failed on a storage error and is called again once the
+// fault is gone must really store the version: it may not report success for
+// data that a later open cannot see.
+func VerifH_C14_kv_commit_retry() {
+	bkt := vNewBucket()
+	db, err := Open(vCtx, bkt.client(1), vKVCfg(), OpenOptions{}, time.Unix(0, 10))
+	symAssert(err == nil, "open-ok")
+	if symChoice("has-earlier-version", 2) == 1 {
+		symAssert(db.Set(vCtx, time.Unix(0, 50), "k0", "v0") == nil, "set-ok")
+		_, err := db.Commit(vCtx)
+		symAssert(err == nil, "commit-ok")
+	}
+	symAssert(db.Set(vCtx, time.Unix(0, 100), "k", "v") == nil, "set-ok")
+	f := symInt("fault")
+	symAssume(f >= 0)
+	symAssume(f < 5)
+	bkt.faultOn, bkt.faultAt = true, bkt.reqs+f
+	_, err1 := db.Commit(vCtx)
+	bkt.faultOn = false
+	symObserve("first_commit_failed", err1 != nil)
+	// the caller retries until it is told the commit succeeded
+	for i := 0; i < 2 && err1 != nil; i++ {
+		_, err1 = db.Commit(vCtx)
+	}
+	r, err := Open(vCtx, bkt.fork().client(2), vKVCfg(), OpenOptions{ReadOnly: true}, time.Unix(0, 20))
+	symAssert(err == nil, "later-open-ok")
+	var v string
+	ok, err := r.Get(vCtx, "k", &v)
+	symAssert(err == nil, "later-get-ok")
+	if err1 == nil {
+		symAssert(ok && v == "v", "acknowledged-commit-is-visible-to-a-later-open")
+	} else {
+		// the handle may refuse to commit again (it then has to be re-opened);
+		// what it may not do is claim success. A new handle can write.
+		w2, err := Open(vCtx, bkt.client(3), vKVCfg(), OpenOptions{}, time.Unix(0, 30))
+		symAssert(err == nil, "new-handle-opens")
+		symAssert(w2.Set(vCtx, time.Unix(0, 200), "k", "v2") == nil, "new-handle-set-ok")
+		_, err = w2.Commit(vCtx)
+		symAssert(err == nil, "new-handle-commits")
+		symReach("refused")
+	}
+	symReach("end")
+}
